@@ -26,7 +26,8 @@ pub fn stamp_to_local(k: u64) -> chrono::DateTime<Local> {
     Local.from_local_datetime(&naive).earliest().expect("local time")
 }
 
-pub const FORMATS: [&str; 3] = ["r%Y-%m-%d_%H-%M-%S", "r%Y%m%d-%H%M%S", "r%Y-%m-%d_%H-%M-%S_x"];
+/// 3 is a legal format whose text order is not the time order (day first)
+pub const FORMATS: [&str; 4] = ["r%Y-%m-%d_%H-%M-%S", "r%Y%m%d-%H%M%S", "r%Y-%m-%d_%H-%M-%S_x", "r%d-%m-%Y_%H-%M-%S"];
 
 #[derive(Clone, Debug)]
 pub struct SpecP {
@@ -367,6 +368,18 @@ impl Flw {
         rot.sort();
         let mut rest: Vec<String> = names.iter().filter(|n| Some((*n).clone()) != cur && !n.starts_with("moved-")).cloned().collect();
         rest.sort();
+        if self.spec.fmt == 3 {
+            // day-first names: the reading order of the property is the TIME order
+            let fixed_len = { let mut s = self.spec.basename.clone(); if let Some(d) = &self.spec.discr { if !s.is_empty() { s.push('_'); } s.push_str(d); } if s.is_empty() { 0 } else { s.len() + 1 } };
+            let key = |n: &String| -> String {
+                let inf = n.get(fixed_len..).unwrap_or("");
+                let b = inf.as_bytes();
+                if b.len() >= 11 && b[0] == b'r' && b[3] == b'-' && b[6] == b'-' && inf.is_char_boundary(11) {
+                    format!("r{}-{}-{}{}", &inf[7..11], &inf[4..6], &inf[1..3], &inf[11..])
+                } else { inf.to_string() }
+            };
+            rest.sort_by_key(key);
+        }
         rot.extend(rest);
         if let Some(c) = cur {
             if names.contains(&c) {
